@@ -307,7 +307,8 @@ def pick_value(field, size, orig, val, raw, ctx_count, filesize):
         return lst[(val // 3) % len(lst)] & mx
     choices = [0, 1, 2, 0x7f, 0x80, 0xff, mx, mx - 1, mx >> 1, (mx >> 1) + 1, orig + 1, orig - 1, orig * 2, orig ^ 1,
                orig | (1 << (bits - 1)), filesize, filesize - 1, filesize + 1, ctx_count, ctx_count + 1, ctx_count - 1,
-               orig + 8, orig - 8, orig + 0x10000, raw, 3, 7, 0x100, 0xffff, 0xfff1, 24, 64]
+               orig + 8, orig - 8, orig + 0x10000, raw, 3, 7, 0x100, 0xffff, 0xfff1, 24, 64,
+               1 << 31, orig + (1 << 32), 1 << 36, raw & 0xffffffff, raw & 0xffffff]
     return choices[val % len(choices)] & mx
 
 
@@ -395,6 +396,8 @@ def mutate_elf(seed, muts):
 
 
 SIG_HANG_MERGE = "hang:cpu-bound:libwild::string_merging::find_string"
+SIG_RSP_RECURSION = ("signal:SIGABRT:libwild::args::ArgumentParser+libwild::args::arguments_from_string+"
+                     "libwild::args::read_args_from_file:stack overflow")
 
 
 def merge_string_far_offset(data):
@@ -550,7 +553,7 @@ def mutate_text(seed, muts):
 # Strategies
 
 mut_strategy = st.fixed_dictionaries({"struct": st.sampled_from(STRUCTS), "i": st.integers(0, 4095), "f": st.integers(0, 31),
-                                      "val": st.integers(0, 255), "raw": st.integers(0, M64)})
+                                      "val": st.integers(0, 255), "raw": st.integers(0, M64)})   # noqa
 
 FAMILIES = ["elf-obj", "elf-obj", "elf-obj", "elf-so", "archive", "archive", "script", "version", "dynlist", "response", "args"]
 
@@ -676,20 +679,28 @@ def run_watched(cmd, cwd, env, timeout):
     return tools.Result(p.returncode, out.decode("utf-8", "replace"), err.decode("utf-8", "replace"), hang is not None), hang
 
 
-def gdb_crash_frame(argv, d):
-    """Re-runs the link under gdb (no fork) and returns the innermost libwild frame at the fatal signal."""
+def gdb_crash_frame(argv, d, cycle=False):
+    """Re-runs the link under gdb (no fork) and returns the innermost libwild frame at the fatal signal
+    (cycle=True: the sorted set of libwild functions among the innermost 40 frames, for stack overflows,
+    where the innermost frame is an arbitrary point of the recursion)."""
     try:
-        r = subprocess.run(["gdb", "-batch", "-ex", "run", "-ex", "bt 60", "--args", core.WILD, "--no-fork", *argv], cwd=d,
+        r = subprocess.run(["gdb", "-batch", "-ex", "run", "-ex", "bt 40", "--args", core.WILD, "--no-fork", *argv], cwd=d,
                            stdout=subprocess.PIPE, stderr=subprocess.DEVNULL, text=True, timeout=300,
                            env=dict(os.environ, WILD_VALIDATE_OUTPUT="0", RUST_BACKTRACE="0"))
     except (OSError, subprocess.TimeoutExpired):
         return None
-    m = re.search(r"^#\d+\s+(?:0x[0-9a-f]+ in )?(libwild::[^\s(]+)", r.stdout, re.M)
-    if not m:
+
+    def clean(fn):
+        fn = re.sub(r"::\{impl#\d+\}", "", fn)
+        fn = re.sub(r"::\{closure#\d+\}", "", fn)
+        return re.sub(r"<.*", "", fn)
+
+    fns = [clean(m) for m in re.findall(r"^#\d+\s+(?:0x[0-9a-f]+ in )?(libwild::[^\s(]+)", r.stdout, re.M)]
+    if not fns:
         return None
-    fn = re.sub(r"::\{impl#\d+\}", "", m.group(1))
-    fn = re.sub(r"::\{closure#\d+\}", "", fn)
-    return re.sub(r"<[^<>]*>", "", fn)
+    if cycle:
+        return "+".join(sorted(set(fns))[:4])
+    return fns[0]
 
 
 def normalise_fn(sym):
@@ -773,6 +784,10 @@ class C22(Check):
 
     def excluded_by_construction(self, case):
         fam = case.get("family")
+        if fam == "response" and "@r2.rsp" in RESPONSES[case["seed"] % len(RESPONSES)] and case["mode"] & 1:
+            # in.rsp includes r2.rsp which includes in.rsp: the known unbounded @file recursion
+            # (unless a mutation happened to delete the reference; not worth a run to find out)
+            return SIG_RSP_RECURSION
         if fam not in ("elf-obj", "archive"):
             return None
         lst = self._seeds()[fam]
@@ -901,8 +916,9 @@ class C22(Check):
         signo = -res.rc if res.rc < 0 else (res.rc - 128 if res.rc > 128 and not re.search(r"^wild: error", err, re.M) else 0)
         if signo:
             name = signal.Signals(signo).name if signo in signal.Signals._value2member_map_ else str(signo)
-            fn = gdb_crash_frame(argv, d) if (d is not None and argv is not None) else None
-            what_msg = "memory allocation failed" if "memory allocation of" in err else ""
+            overflow = "overflowed its stack" in err
+            fn = gdb_crash_frame(argv, d, cycle=overflow) if (d is not None and argv is not None) else None
+            what_msg = "memory allocation failed" if "memory allocation of" in err else "stack overflow" if overflow else ""
             sig = f"signal:{name}:{fn or '?'}" + (f":{what_msg}" if what_msg else "")
             raise Violation(sig, f"wild was killed by {name} on {what}: {err.strip()[:300]}", detail)
         if res.rc == 0:
@@ -920,7 +936,8 @@ class C22(Check):
             # Replay of a libFuzzer crash input kept by extra_phases.
             self._seeds()
             target = {"input": "fuzz_input", "text": "fuzz_text", "args": "fuzz_args"}[case["campaign"].split("-")[0]]
-            data = open(case["artifact"], "rb").read()
+            apath = case["artifact"] if os.path.isabs(case["artifact"]) else os.path.join(core.VERIF, case["artifact"])
+            data = open(apath, "rb").read()
             rep = self.replay_artifact(target, data, d)
             if rep is None:
                 return {"nontrivial": False}
